@@ -106,6 +106,28 @@ func TestVerifC11Viewer(t *testing.T) {
 				if err == nil && len(tr.Programs) == 1 {
 					res.Hit("report-view")
 					rsum := string(tr.Programs[0].Summary)
+					// the charts built from that report: a chart is marked "not present in the
+					// telemetry config" although the uploader uploads an entry shown in it
+					if cd, err := charts([]*telemetryReport{tr}, cfg); err == nil && kept.Emitted {
+						for _, pg := range cd.Programs {
+							for _, ch := range pg.Counters {
+								res.Hit("chart-judged")
+								for full := range file.Counts {
+									if !kept.Counters[full] {
+										continue
+									}
+									first, _, _ := strings.Cut(full, "\n")
+									name := first
+									if !strings.Contains(full, "\n") {
+										name, _, _ = strings.Cut(full, ":")
+									}
+									if name == ch.Name && !ch.Active {
+										res.Violate("viewer-chart-inactive-but-uploaded", fmt.Sprintf("build %+v: chart %q is marked as not present in the configuration, but the uploader uploads its entry %q", file.Build, ch.Name, vfTrunc(full)), rp)
+									}
+								}
+							}
+						}
+					}
 					if a, b := c11Listed(sum), c11Listed(rsum); a != b {
 						res.Violate("viewer-report-vs-file", fmt.Sprintf("build %+v: shown as a pending counter file the viewer lists as excluded [%s] (no data uploaded: %v), shown as a local report of the same data it lists [%s] (summaries %q / %q)", file.Build, a, noData, b, sum, rsum), rp)
 					}
@@ -231,4 +253,11 @@ func c11Listed(sum string) string {
 		out = "NO DATA; " + out
 	}
 	return out
+}
+
+func vfTrunc(s string) string {
+	if len(s) > 80 {
+		return s[:80] + "…"
+	}
+	return s
 }
